@@ -216,7 +216,24 @@ def ensure_vderive(cfg):
 
 
 def run_vderive(cfg, cmd, prop, tier, out_json, extra=None):
-    exe = ensure_vderive(cfg)
+    try:
+        exe = ensure_vderive(cfg)
+    except MachineryError as e:
+        # vderive is a crate of VALID definitions compiled through the real #[derive(Logos)] of /repo's
+        # working tree; it builds on the unchanged tree (setup / every earlier run). If it stops
+        # compiling, the derive no longer produces a working implementation for some of them: that is
+        # a finding about the tree, not a defect of the machinery - provided the errors come from the
+        # derive's output / diagnostics and logos itself still builds.
+        msg = str(e)
+        probe = sh(["cargo", "build", "--offline", "-q", "-p", "logos", "--target-dir", os.path.join(VDERIVE, "target", cfg)], cwd=VDERIVE, timeout=3600, check=False)
+        if probe.returncode != 0:
+            raise
+        errs = [l.strip() for l in msg.splitlines() if l.startswith("error")]
+        first = errs[0] if errs else "build failed"
+        return {"engine": f"vderive [{cfg}] (build)", "counts": {"evaluations": 1, "programs": 1}, "observed": {}, "samples": [], "notes": [], "bounds": {}, "exhaustive": False,
+                "violations": [{"key": f"DERIVE-BUILD/{first[:120]}", "tag": "DERIVE-BUILD", "case": f"the corpus of valid definitions behind vderive {cmd} [{cfg}]",
+                                "detail": "definitions that compile through #[derive(Logos)] on the unchanged tree no longer compile: " + " | ".join(errs[:6])[:900],
+                                "replay": {"kind": "derive-build", "tag": "DERIVE-BUILD", "cfg": cfg}}]}
     return run_engine([exe, cmd, "--prop", prop, "--tier", tier, "--out", out_json] + (extra or []), out_json, timeout=3600)
 
 
